@@ -273,11 +273,11 @@ def cfgStep (s : St) (op : List String) (exts : List (List String)) : St × Opti
   | ["convert"] =>
     if s.inp.kind == "rules" then
       let ok := rulesConvertOK s.inp
-      ({ s with rconv := some ok }, some (if ok then "exit=0 kind=converted" else "exit=1 kind=empty"))
+      ({ s with rconv := some ok }, some (if ok then "exit=0 kind=converted" else "exit=1 kind=aborted"))
     else
       let fo := convertFile x units table depKeys Gen.Convert.depGroups s.inp.data
       ({ s with converted := some fo }, some (match fo with
-        | .aborted => "exit=1 kind=empty"
+        | .aborted => "exit=1 kind=aborted"
         | .dump => "exit=0 kind=dump"
         | .rows _ => "exit=0 kind=converted"))
   | ["load"] =>
@@ -346,6 +346,11 @@ def loadErrs (exts : List (List String)) : List String :=
     | ["loaderr", c, f] => some (c ++ ":" ++ f)
     | _ => none
 
+def loadErrPairs (exts : List (List String)) : List (String × String) :=
+  exts.filterMap fun e => match e with
+    | ["loaderr", c, f] => some (c, dec f)
+    | _ => none
+
 def cfgMon (m : MSt) (op : List String) (exts : List (List String)) (obs : Option String) : MSt × List Fail :=
   match m.inp.record op exts with
   | some i => ({ m with inp := i }, [])
@@ -375,14 +380,26 @@ def cfgMon (m : MSt) (op : List String) (exts : List (List String)) (obs : Optio
     else
       let items := allV1Items m.inp.data
       let strs := allV1Strings m.inp.data
-      let f1 := if items.any (fun s => x.yaml s == .err) then
-          [fail "C38:list-item-unquoted:unparseable" s!"a list item (e.g. \"*\") is written without quotes and the output is not YAML ({errs})"] else []
-      let f2 := if items.any (fun s => x.yaml s != .str && x.yaml s != .err) then
-          [fail "C38:list-item-unquoted:retyped" s!"a list item is written without quotes and read back as a non-string ({errs})"] else []
-      let f3 := if strs.any (fun s => x.yaml s != .str) then
-          [fail "C38:string-unquoted:retyped" s!"a string value is written without quotes and read back as a non-string ({errs})"] else []
-      let fs := f1 ++ f2 ++ f3
-      (m', if fs.isEmpty then [fail ("C38:output-invalid:" ++ ((loadErrs exts).headD "-")) s!"converted config refused by the v2 loader ({errs})"] else fs)
+      let sigs : List (String × String) := (loadErrPairs exts).map fun (c, f) =>
+        let v1 := (findRow f).bind fun r => fetch m.inp.data r.key
+        if c == "not-a-string" || c == "nil-value" then
+          match v1 with
+          | some (.str s) => if x.yaml s != .str then
+              ("C38:string-unquoted:retyped", s!"{f}: the v1 string is written without quotes and read back as a non-string")
+            else ("C38:output-invalid:" ++ c ++ ":" ++ f, s!"{f}: refused by the v2 validator")
+          | _ => ("C38:output-invalid:" ++ c ++ ":" ++ f, s!"{f}: refused by the v2 validator")
+        else if c == "non-string-item" then
+          ("C38:list-item-unquoted:retyped", s!"{f}: a list item is written without quotes and read back as a non-string")
+        else if c == "yaml-syntax" then
+          if items.any (fun s => x.yaml s == .err) then
+            ("C38:list-item-unquoted:unparseable", "a list item (e.g. \"*\") is written without quotes and the output is not YAML")
+          else if strs.any (fun s => x.yaml s == .err) then
+            ("C38:string-unquoted:unparseable", "a string is written without quotes and the output is not YAML")
+          else ("C38:output-invalid:yaml-syntax", "the output is not YAML")
+        else ("C38:output-invalid:" ++ c ++ ":" ++ f, s!"{f}: refused by the v2 validator ({c})")
+      let sigs := if sigs.isEmpty then [("C38:output-invalid:unknown", "refused by the v2 loader")] else sigs
+      let uniq := sigs.foldl (fun acc p => if acc.any (·.1 == p.1) then acc else acc ++ [p]) []
+      (m', uniq.map fun p => fail p.1 s!"converted config refused by the v2 loader ({errs}): {p.2}")
   | ["get", gf] =>
     if o == "unloaded" then (m, []) else
     match findRow gf with
